@@ -222,6 +222,21 @@ w("commit-writeto-drops-length", ["C05", "C06"], "C05.grammar/Commit/groups", "t
   ("commit/commit.go", "\t\t// Write buffer length\n\t\tif err := w.WriteUvarint(uint64(offset)); err != nil {\n\t\t\treturn err\n\t\t}\n", "\t\t// Write buffer length\n"))
 w("fx12-readchunk-unguarded-index", ["C08", "C13"], "C08.read/(*column.Collection).readChunk/commits-in-range", "commit-id table indexed without a length test (inverse of fix 53d21bb)",
   ("snapshot.go", "\tvar last uint64\n\tif int(chunk) < len(c.commits) {\n\t\tlast = c.commits[chunk]\n\t}\n\treturn fn(last, chunk, chunk.OfBitmap(c.fill))\n", "\treturn fn(c.commits[chunk], chunk, chunk.OfBitmap(c.fill))\n"), suite="survives")
+w("fx13-chunks-from-fill-alone", ["C08"], "C08.read/(*column.Collection).chunks/committed-extent", "block count taken from the fill list alone (inverse of fix 8130d1a)",
+  ("snapshot.go", "\tif chunks > len(c.commits) {\n\t\tchunks = len(c.commits)\n\t}\n\treturn chunks\n", "\treturn chunks\n"), suite="survives")
+w("fx14-string-delete-keeps-value", ["C11", "C01", "C09"], "C01.arms/column.columnString/Delete/must-value-clear", "deleted row's string stays in the slot (inverse of fix d98fe8b)",
+  ("column_strings.go", "\t\t\tfill.Remove(uint32(offset))\n\t\t\tdata[offset] = \"\" // The next row at this offset must not merge into this value\n", "\t\t\tfill.Remove(uint32(offset))\n"), suite="survives")
+w("fx15-expire-default-merge", ["C17"], "C17.write/column.NewCollection/expire-merge", "expire column merges with the default addition (inverse of fix a5c5502)",
+  ("collection.go", "\tstore.CreateColumn(expireColumn, ForInt64(WithMerge(extendDeadline)))\n", "\tstore.CreateColumn(expireColumn, ForInt64())\n"), suite="survives")
+# ---- rules of seed round 8 -------------------------------------------------------------------
+w("range-rereads-header-count", ["C01", "C03", "C05"], "C03.order/(*commit.Reader).Range/headers-as-on-entry", "header loop bound re-read every iteration",
+  ("commit/reader.go", "\tfor i, c := range buf.chunks {\n\t\tif c.Chunk != chunk {", "\tfor i := 0; i < len(buf.chunks); i++ {\n\t\tc := buf.chunks[i]\n\t\tif c.Chunk != chunk {"))
+w("commitupdates-break-on-missing-column", ["C09", "C02", "C03"], "C03.twopass/no-exit", "buffer loop left at the first unregistered column",
+  ("txn.go", "\t\tif !exists || len(columns) == 0 {\n\t\t\tcontinue\n\t\t}\n", "\t\tif !exists || len(columns) == 0 {\n\t\t\tbreak\n\t\t}\n"), suite="survives")
+w("log-append-flush-outside-mutex", ["C18", "C06"], "L10/commit.Log.writer/(*commit.Log).Append", "flush outside the log mutex",
+  ("commit/log.go", "\tl.lock.Lock()\n\tdefer l.lock.Unlock()\n\n\t// Write the commit into the stream\n\tif _, err = commit.WriteTo(l.writer); err == nil {\n\t\terr = l.writer.Flush()\n\t}\n\treturn\n", "\tl.lock.Lock()\n\t_, err = commit.WriteTo(l.writer)\n\tl.lock.Unlock()\n\tif err == nil {\n\t\terr = l.writer.Flush()\n\t}\n\treturn\n"), suite="survives")
+w("swapbytes-inplace-when-it-fits", ["C05", "C06"], "C05.swap/(*commit.Reader).SwapBytes/in-place", "in-place overwrite whenever the new value fits",
+  ("commit/reader.go", "\tif (r.i1 - r.i0) == len(v) {", "\tif (r.i1 - r.i0) >= len(v) {"), suite="survives")
 # ---- rules of seed rounds 6 and 7 ----------------------------------------------------------------
 w("max-overwritten-on-miss", ["C04"], "C04.fold/(column.rdNumber[T]).Max", "a block without selected values overwrites the running maximum",
   ("column_numeric.go", "bitmap.Max(data, present(index, fill)); hit && (v > max || !ok) {\n\t\t\t\tmax = v\n\t\t\t\tok = true\n", "bitmap.Max(data, present(index, fill)); v > max || !ok {\n\t\t\t\tmax = v\n\t\t\t\tok = hit\n"))
